@@ -473,7 +473,8 @@ def check(an: Analysis) -> None:
     from ..engine import borrow
     from . import c05
 
-    borrow(an, c05.check, {"C05.1": "C04.9"})
+    # C05.5: which alternative of a union converts the value decides whether a container is stored in its immutable form
+    borrow(an, c05.check, {"C05.1": "C04.9", "C05.5": "C04.10"})
 
 
 def thorough(an: Analysis, repo: str) -> dict:
